@@ -616,9 +616,11 @@ func (p *pair) classify(phase string, out *outcome, ldump *t38.Dump, lst, st srv
 	case (lastPos == 0 || lastPos2 == 0) && fst.aofSize != lst.aofSize:
 		// resumed at 0 although it held data: its log counter (old + leader's) gives it away
 		key = findingKeepsOldData
-	case lastPos > 0 && lastPos2 > 0 && fst.aofSize > lst.aofSize && fst.aofSize != 0:
-		// resumed inside the log, yet the follower's log counter ran past the
-		// leader's: it kept (and re-appended) the part behind the verified prefix
+	case lastPos > 0 && lastPos2 > 0 && fst.aofSize > lst.aofSize &&
+		!strings.Contains(p.F.Stderr.String(), fmt.Sprintf("truncating aof to %d", lastPos2)):
+		// resumed inside the log without truncating its own log to that position
+		// (no "truncating aof to <pos>" line), and its log counter ran past the
+		// leader's: it kept, re-applied and re-appended the part behind the verified prefix
 		key = findingKeepsTail
 	case streams >= 2:
 		// a new replication stream was opened while an older one was still open:
